@@ -18,7 +18,7 @@ let fam_ref (t : string array) : string =
     let ad = match Option.value (Fam_run.kv opts "ad") ~default:"cur" with
       | "cur" -> RefClvm.current_adapters | "hist" -> RefClvm.historical_adapters
       | a -> failwith ("unknown adapter set " ^ a) in
-    (match RefClvm.ref_run Sha256.sha256 ad (Lazy.force fuel) p e m with
+    (match RefClvm.ref_run Sha256.sha256 ad (fun _ _ -> true) (Lazy.force fuel) p e m with
      | Err.Ok (c, v) -> Printf.sprintf "ok %s %s" (dec_of_n c) (Util.show_tree_short v)
      | Err.Err Err.Unsupported -> "skip"
      | Err.Err e -> "err " ^ (match String.index_opt (Util.err_name e) '[' with
